@@ -901,9 +901,10 @@ class PlayingStatusReactor(StatusReactor):
         self.handle_proto_version(self.connection.default_proto_version)
 
     def handle_exception(self, exc, exc_info):
-        if isinstance(exc, EOFError):
+        if isinstance(exc, EOFError) and self.connection.connected:
             # An exception of this type may indicate that the server does not
-            # properly support status queries, so we treat it as non-fatal.
+            # properly support status queries, so we treat it as non-fatal,
+            # unless the stream ended because 'disconnect' has been called.
             self.connection.disconnect(immediate=True)
             self.handle_failure()
             return True
